@@ -373,6 +373,7 @@ static int rnode_reps(char **pat)
 static struct rnode *rnode_atom(char **pat)
 {
 	struct rnode *rnode;
+	char *beg = *pat;
 	if (!**pat)
 		return NULL;
 	if ((*pat)[0] == '|' || (*pat)[0] == ')')
@@ -383,8 +384,10 @@ static struct rnode *rnode_atom(char **pat)
 		rnode = rnode_make(RN_ATOM, NULL, NULL);
 		ratom_read(&rnode->ra, pat);
 	}
-	if (!rnode)
+	if (!rnode) {
+		*pat = beg;		/* regcomp() fails if anything is left */
 		return NULL;
+	}
 	if ((*pat)[0] == '*' || (*pat)[0] == '?') {
 		rnode->mincnt = 0;
 		rnode->maxcnt = (*pat)[0] == '*' ? -1 : 1;
@@ -408,6 +411,7 @@ static struct rnode *rnode_atom(char **pat)
 		if (rnode->mincnt > NREPS || rnode->maxcnt > NREPS ||
 				(rnode->maxcnt >= 0 && rnode->maxcnt < rnode->mincnt)) {
 			rnode_free(rnode);
+			*pat = beg;
 			return NULL;
 		}
 	}
@@ -557,7 +561,7 @@ int regcomp(regex_t *preg, char *pat, int flg)
 	int mark;
 	if (!rnode)
 		return 1;
-	if (n >= NINSTS) {		/* nested repetitions multiply */
+	if (*pat || n >= NINSTS) {	/* unparsed rest; nested repetitions multiply */
 		rnode_free(rnode);
 		return 1;
 	}
